@@ -17,11 +17,11 @@ CHAIN_NOTE = ("Trusted: RocksDB snapshot isolation / WAL atomicity; blake2b and 
 CHECKS = {
     "C01": dict(engine="chain", category="exploration", design="4/C01",
                 technique="runtime monitoring: RefChain oracle over callbacks, published tips (hook H3) and final state; seeded delay injection; panic monitor",
-                text="Random block trees (forks, uneven difficulty across an epoch boundary, invalid blocks and re-parented descendants of invalid blocks) are delivered to fresh real nodes under in-order / reverse / random / child-before-parent / duplicate-heavy arrival orders, 1-4 submitter threads and seeded delay plans at the hook points between the insert / preload / verify threads. Oracles: every connectable valid block is answered, no valid block is reported failed, published tips strictly increase in total difficulty and are fully valid, the final tip is in the model's arg-max set of fully valid chains, no connectable block is left in the orphan pool, no node thread panics. Held = on the executions observed.",
+                text="Random block trees (forks, uneven difficulty across an epoch boundary, invalid blocks and re-parented descendants of invalid blocks) are delivered to fresh real nodes under in-order / reverse / random / child-before-parent / duplicate-heavy / switch-back (A -> B -> A, first blocks re-attached as already verified) / orphans-across-the-clean-up-timer (hook H3b) arrival orders, 1-4 submitter threads and seeded delay plans at the hook points between the insert / preload / verify threads. Oracles: every connectable valid block is answered, no valid block is reported failed, published tips strictly increase in total difficulty and are fully valid, the final tip is in the model's arg-max set of fully valid chains, no connectable block is left in the orphan pool, no node thread panics; a sample of nodes is restarted on the same database (production open path) and must come back with the same tip. Held = on the executions observed.",
                 note=CHAIN_NOTE),
     "C02": dict(engine="chain", category="exploration", design="4/C02",
                 technique="runtime monitoring: raw column dumps of store and of concurrently loaded snapshots compared both ways with an independent replay model",
-                text="At every quiescent point of every delivered node, on the builder node after all its truncations, and inside snapshots loaded by reader threads while blocks are being processed, all canonical columns (live cells with data and data hash, tx locations, number<->hash index, uncle index, tip, current epoch, per-block epoch records, epoch-number index, block ext incl. fees/sizes/accumulated difficulty, MMR nodes) are dumped raw and compared in both directions with a replay of the model's main chain.",
+                text="At every quiescent point of every delivered node, on the builder node after all its truncations, and inside snapshots loaded by reader threads while blocks are being processed, all canonical columns (live cells with data and data hash, tx locations, number<->hash index, uncle index, tip, current epoch, per-block epoch records, epoch-number index, block ext incl. fees/sizes/accumulated difficulty, MMR nodes) are dumped raw and compared in both directions with a replay of the model's main chain; repeated after a restart of the node on the same database.",
                 note=CHAIN_NOTE),
     "C19": dict(engine="chain+filter", category="exploration", design="4/C19",
                 technique="runtime monitoring: own MMR model vs committed roots on every fork; proofs from the node verified against committed and rival roots; stored block filters decoded and matched against the model's scripts per main-chain block, with the builder thread held at hook points (H9) while reorgs are delivered",
@@ -29,7 +29,7 @@ CHECKS = {
                 note=CHAIN_NOTE),
     "C20": dict(engine="chain", category="exploration", design="4/C20",
                 technique="runtime monitoring: proposal view of every published snapshot (hook H3) vs own window arithmetic",
-                text="The proposal view (set/gap) of every published snapshot, of concurrently loaded snapshots, of quiescent nodes and of the builder node after truncations is compared with the model's window sets computed by its own arithmetic over the main chain (proposal ids of blocks and their uncles), for windows (2,10), (1,3), (1,1).",
+                text="The proposal view (set/gap) of every published snapshot, of concurrently loaded snapshots, of quiescent nodes and of the builder node after truncations is compared with the model's window sets computed by its own arithmetic over the main chain (proposal ids of blocks and their uncles), for windows (2,10), (1,3), (1,1); also after a restart of the node on the same database (table rebuilt by the start-up path).",
                 note=CHAIN_NOTE),
     "C07": dict(engine="arith", category="exploration", design="4/C07",
                 technique="runtime monitoring: real APIs driven over boundary-biased inputs, JSONL records judged by an exact-arithmetic Python oracle; Miri on pure-Rust arithmetic (thorough)",
@@ -44,7 +44,7 @@ POOL_NOTE = ("Trusted: the H5 dump is taken under the pool's own write lock; ckb
 CHECKS.update({
     "C11": dict(engine="pool", category="exploration", design="4/C11",
                 technique="runtime monitoring: invariant recomputation over the pool dump (hook H5) after every operation of random op sequences on the real tx-pool service",
-                text="Random operation sequences (submissions over tx DAGs with chains, shared cell deps and header deps, conflicting submissions with RBF on/off, removals, expiry by virtual time, size-limit eviction with small limits, blocks and reorgs of depth 1..w_far+3, template mining) drive the real TxPoolService; after every operation the dump is judged by recomputation: no double spends, input/dep/header-dep indexes equal the entries, links symmetric and equal to actual spends/deps (L_min subset links subset L_allowed), ancestor/descendant aggregates equal a fold over the link closure (also as reported by get_all_entry_info), totals and per-status counters, ancestor limit, replacement fee accounting.",
+                text="Random operation sequences (submissions over tx DAGs with chains, shared cell deps and header deps, conflicting submissions with RBF on/off, removals, expiry by virtual time, size-limit eviction with small limits, blocks and reorgs of depth 1..w_far+3, template mining, cell-dep users of cells a pooled transaction spends, submissions parked at the pool lock while a block commits a conflicting transaction, sessions with small max_block_bytes / max_block_cycles with late fills and child-pays-for-parent packages) drive the real TxPoolService; after every operation the dump is judged by recomputation: no double spends, input/dep/header-dep indexes equal the entries, links symmetric and equal to actual spends/deps (L_min subset links subset L_allowed), ancestor/descendant aggregates equal a fold over the link closure (also as reported by get_all_entry_info), totals and per-status counters, ancestor limit, replacement fee accounting.",
                 note=POOL_NOTE),
     "C12": dict(engine="pool", category="exploration", design="4/C12",
                 technique="runtime monitoring: pool dump vs RefChain after every tip change; reorg notification log (hook H5) vs model forks",
@@ -56,7 +56,7 @@ CHECKS.update({
                 note=POOL_NOTE),
     "C03": dict(engine="rules", category="exploration", design="4/C03",
                 technique="runtime monitoring: single-rule mutants and boundary-valid variants of valid candidate blocks through the real pipeline (HeaderVerifier + chain service) with full-state before/after comparison; RefChain facts for window / median / uncle eligibility",
-                text="On tips of random block trees (epoch heads/tails, windows (2,10) (1,3) (2,4) (1,1), lowered proposal limit, a real-PoW context) a valid candidate is drafted on the builder node; ~57 single-rule violations (number, epoch fraction, timestamp vs past median / future bound, target, PoW, merkle/proposal/extra hashes, cellbase shape, reward amount/lock/presence, each dao component +-1, duplicates, proposal limit, extension shapes and chain root, uncle count/duplicate/epoch/target/descent/double inclusion/proposals hash, commit not proposed / too recent / expired) must be rejected by the header check or reported Err by the chain service with the full store dump and tip unchanged; boundary-valid variants (median+1, now+15s, extension 32/96 bytes, limits exactly met, commit exactly at w_close / w_far) must be attached. Side branches: an invalid block parked on a lighter branch plus re-parented descendants making it heavier must be refused as a whole (submitter gets Err, canonical state unchanged); the valid twin branch must then be attached.",
+                text="On tips of random block trees (epoch heads/tails, windows (2,10) (1,3) (2,4) (1,1), lowered proposal limit, a real-PoW context) a valid candidate is drafted on the builder node; ~57 single-rule violations (number, epoch fraction, timestamp vs past median / future bound, target, PoW, merkle/proposal/extra hashes, cellbase shape, reward amount/lock/presence, each dao component +-1, duplicates, proposal limit, extension shapes and chain root, uncle count/duplicate/epoch/target/descent/double inclusion/proposals hash, commit not proposed / too recent / expired by exactly one block (window ladder: an uncommitted proposal at every distance 1..w_far+2); mutants that change the transaction set get their dao field recomputed so that they break one rule only; a tiny-reward context where every cellbase must stay empty must be rejected by the header check or reported Err by the chain service with the full store dump and tip unchanged; boundary-valid variants (median+1, now+15s, extension 32/96 bytes, limits exactly met, commit exactly at w_close / w_far) must be attached. Side branches: an invalid block parked on a lighter branch plus re-parented descendants making it heavier must be refused as a whole (submitter gets Err, canonical state unchanged); the valid twin branch must then be attached.",
                 note="Trusted: mutants break exactly one rule by construction; dao/reward of the valid candidate come from production calculators (C06). Block version is not a consensus rule (versionbits) and is not mutated."),
     "C08": dict(engine="crash", category="fault_enumeration", design="4/C08",
                 technique="runtime monitoring under injected faults: process death at every durable write (hook H2) in child processes, recovery through the production open path, dumps judged by RefChain",
@@ -83,11 +83,11 @@ CHECKS.update({
 CHECKS.update({
     "C04": dict(engine="tx", category="exploration", design="4/C04",
                 technique="runtime monitoring: candidate transactions with model-computed thresholds judged by the real pool (test_accept_tx) and the real chain service (single-tx block) on nodes that reached the same context through different delivery orders",
-                text="Generated chain contexts (tiny epochs of several lengths, windows, forks, uncles) x ~40 candidate transactions per context: valid bases and single-rule violations (dead / unknown / duplicate / side-branch inputs, dead / unknown / duplicate cell deps, dep groups with live members / malformed data, header deps on the main chain / side branch / unknown / duplicate, capacity overflow by one shannon and output one shannon below occupied, since absolute/relative x block/epoch/timestamp exactly at the threshold and one unit early, malformed since encodings, cellbase exactly mature / one block early, always_failure lock / type, secp256k1 valid / corrupted signature). Thresholds for the commit position come from the RefChain model (block numbers, epoch fractions, past medians, cellbase positions). Each candidate is judged alone in a block at the commit position and by the pool at the tip; expected verdicts come from construction. Soundness: whatever the pool accepts must be valid in the next block. History independence: the verdict vector of a node that received everything in reverse (orphan-first) order must equal the direct node's.",
+                text="Generated chain contexts (tiny epochs of several lengths, windows, forks, uncles) x ~40 candidate transactions per context: valid bases and single-rule violations (dead / unknown / duplicate / side-branch inputs, dead / unknown / duplicate cell deps, dep groups with live members / malformed data, header deps on the main chain / side branch / unknown / duplicate, capacity overflow by one shannon and output one shannon below occupied, since absolute/relative x block/epoch/timestamp exactly at the threshold and one unit early, malformed since encodings, cellbase exactly mature / one block early, always_failure lock / type, secp256k1 valid / corrupted signature, several inputs with mixed since values, dep-group expansion exactly at / one over the limit of 2048 with and without the pre-resolved system dep group, several transactions in one block: spend of an earlier / later output, double spend across transactions, cell dep spent earlier / later in the block, dep-group member spent earlier in the block, inputs created / spent in blocks that were re-attached after a switch-back, inputs spent only on a side branch). Thresholds for the commit position come from the RefChain model (block numbers, epoch fractions, past medians, cellbase positions). Each candidate is judged alone in a block at the commit position and by the pool at the tip; expected verdicts come from construction. Soundness: whatever the pool accepts must be valid in the next block. History independence: the verdict vectors of a node that received everything in reverse (orphan-first) order, of a node whose main chain lost to a side branch and won again, and of a node that synchronised through two assume-valid targets must equal the direct node's. A block refused only because of its dao field although the harness could not even resolve its body is reported (every transaction rule let it pass).",
                 note="Trusted: single-rule construction of candidates; bundled always_success / always_failure / secp256k1 binaries. The pool's conservative commit-position estimate is honoured: pool expectations are only set where it cannot matter."),
     "C14": dict(engine="tx", category="exploration", design="4/C14",
                 technique="runtime monitoring: differential between a warm node with default caches and a node with store caches of size 0/1 whose verification cache is cleared before every event; repeated events on the warm node (cache hits)",
-                text="The C04 candidate/event sequence is replayed on a warm node and on a cold node (StoreConfig cache sizes 0 or 1, txs_verify_cache cleared before every event): pool and block verdicts, recorded fees / cycles / sizes (BlockExt) and the chain answer vector (blocks, headers, transactions, cells of the whole context) must be identical; every event is repeated on the warm node after the verification cache has been filled by the pool and block paths (context-dependent candidates: since, maturity, liveness must still be refused); a block carrying a transaction with a corrupted signature after its valid twin (same tx hash, different witness) was cached must be refused.",
+                text="The C04 candidate/event sequence is replayed on a warm node and on a cold node (StoreConfig cache sizes 0 or 1, txs_verify_cache cleared before every event): pool and block verdicts, recorded fees / cycles / sizes (BlockExt) and the chain answer vector (blocks, headers, transactions, cells of the whole context) must be identical; every event is repeated on the warm node after the verification cache has been filled by the pool and block paths (context-dependent candidates: since, maturity, liveness must still be refused); a block carrying a transaction with a corrupted signature after its valid twin (same tx hash, different witness) was cached must be refused; commit-position shift: since / maturity candidates cached as valid for position n are offered at position n-1 and must be refused; half of the contexts run with the process-wide SYSTEM_CELL cache initialised as `ckb run` does, half without.",
                 note="Trusted: an LRU of capacity 0 disables a cache (measured, DESIGN section 9)."),
     "C05": dict(engine="script", category="exploration", design="4/C05",
                 technique="runtime monitoring: differential of chunked / signalled executions of the real ckb-script scheduler against the uninterrupted run of the same transaction; pause points recorded through hook H6",
